@@ -35,7 +35,7 @@ type Scenario struct {
 	Share bool `json:"share,omitempty"`
 }
 
-var kinds = []string{"eqInt", "eqString", "ordInt", "ordString", "contraEq", "contraOrd", "contraEqStr", "contraOrdStr", "contraOrdRaw", "contraEqRaw", "fromEq", "fromOrd", "monoidOp", "monoidSg", "monoidStr", "monoidNested", "semigroup"}
+var kinds = []string{"eqInt", "eqString", "ordInt", "ordString", "contraEq", "contraOrd", "contraEqStr", "contraOrdStr", "contraOrdRaw", "contraEqRaw", "contraAny", "fromEq", "fromOrd", "monoidOp", "monoidSg", "monoidStr", "monoidNested", "semigroup"}
 
 var boundary = []int{math.MinInt, math.MinInt + 1, -1, 0, 1, math.MaxInt - 1, math.MaxInt, math.MaxInt32, math.MinInt32, 1 << 32}
 var pieces = []string{"a", "b", "ab", "A", "z", "é", "日", "\xff", "\x00", "\xc3", " ", "aa"}
@@ -88,6 +88,8 @@ func gen(t *rapid.T) Scenario {
 }
 
 func mod4(x int) int { return ((x % 4) + 4) % 4 }
+
+func mod(x, m int) int { return ((x % m) + m) % m }
 
 // projections int -> int (non-injective ones included, so that Equal/Compare on projections differ from the originals)
 func projInt(sc Scenario) func(int) int {
@@ -249,6 +251,27 @@ func Run(sc Scenario) string {
 		inst := eq.ContraMap[int, int]{Eq: eq.From[int](raw), ContraMap: pure.ContraMap[int, int](f)}
 		if got := inst.Equal(a, b); got != raw(f(a), f(b)) {
 			return fmt.Sprintf("eq.ContraMap.Equal(%d,%d)=%v, the base instance gives %v on the projections (%d,%d)", a, b, got, raw(f(a), f(b)), f(a), f(b))
+		}
+	case "contraAny":
+		// the projected type is an interface: the nil interface is an argument like any other, the projection decides what it means
+		pool := []any{nil, 0, 7, "", "xy", -1, 2.5}
+		u, v := pool[mod(a, len(pool))], pool[mod(b, len(pool))]
+		proj := func(x any) int {
+			switch y := x.(type) {
+			case nil:
+				return 0
+			case int:
+				return y
+			case string:
+				return len(y)
+			}
+			return sc.P
+		}
+		if got, want := (eq.ContraMap[int, any]{Eq: eq.Int, ContraMap: pure.ContraMap[int, any](proj)}).Equal(u, v), proj(u) == proj(v); got != want {
+			return fmt.Sprintf("eq.ContraMap[int, any].Equal(%#v, %#v)=%v, eq.Int on the projections (%d,%d) gives %v", u, v, got, proj(u), proj(v), want)
+		}
+		if got, want := (ord.ContraMap[int, any]{Ord: ord.Int, ContraMap: pure.ContraMap[int, any](proj)}).Compare(u, v), want3(cmp.Compare(proj(u), proj(v))); got != want {
+			return fmt.Sprintf("ord.ContraMap[int, any].Compare(%#v, %#v)=%d, ord.Int on the projections (%d,%d) gives %d", u, v, got, proj(u), proj(v), want)
 		}
 	case "fromEq":
 		f := func(p, q int) bool { return sc.Table[4*mod4(p)+mod4(q)] > 0 }
